@@ -473,6 +473,8 @@ class Spec:
             self.classes.add("unawaited_reply")
             return
         proto = self.conf.services.get(svc) or self.last_proto.get(svc)
+        if self.conf.services.get(svc) is None:
+            self.classes.add("reply_from_removed_service_still_owing")
         kind = None
         if cmd == "x":
             kind = "unlinked"
